@@ -55,7 +55,7 @@ var ruleGroups = map[string][]string{
 	// integrity of a frame: immutability, no hidden state, index spaces, row alignment, column bookkeeping
 	"FRAME": {"R1", "R2c", "R6", "R7", "R8", "R13", "R42", "R128", "R66", "R125", "R132", "R135", "R139"},
 	// string and enum cells: layout, null flags, codes, tables, upper-casing
-	"CELLS": {"R19", "R33", "R34", "R73", "R74", "R82", "R94", "R95", "R57", "R101", "R121", "R134", "R136", "R142", "R144", "R145", "R146", "R147"},
+	"CELLS": {"R19", "R33", "R34", "R73", "R74", "R82", "R94", "R95", "R57", "R101", "R121", "R134", "R136", "R142", "R144", "R145", "R146", "R147", "R148"},
 	// error plumbing of readers and writers
 	"IOERR": {"R24", "R29", "R30", "R31", "R41", "R50", "R56", "R61", "R110", "R138"},
 	// argument decoding and validation shared by all operations
